@@ -7,16 +7,17 @@
 (*  alloc  {as, name, tm:[[k,v]..], h, res: live|noop|panic|unknown, cb}   *)
 (*  rep    {h, v, res}                                                     *)
 (*  gather {pass, err, series:[{name, kind, tm, sum, last, count, cum}]}   *)
+(*  cbtotal {n}   callbacks seen during a case of concurrent first uses    *)
 (***************************************************************************)
 EXTENDS PromReporter, Json
-VARIABLES l, hmap, cbObs
+VARIABLES l, hmap, cbObs, cbSum
 TraceLog == ndJsonDeserialize("trace.ndjson")
 Fail(c) == PrintT(<<"FAIL", l, c>>)
 
 TM(pairs) == [k \in {pairs[i][1] : i \in 1..Len(pairs)} |-> pairs[CHOOSE i \in 1..Len(pairs) : pairs[i][1] = k][2]]
 SpecSet(q) == {q[i] : i \in 1..Len(q)}
 
-TInit == l = 1 /\ hmap = <<>> /\ cbObs = FALSE
+TInit == l = 1 /\ hmap = <<>> /\ cbObs = FALSE /\ cbSum = 0
          /\ flavour = "summary" /\ cbPanics = FALSE /\ specOf = [n \in Names |-> {2}]
          /\ reg = {} /\ cache = {} /\ series = <<>> /\ handles = <<>>
          /\ out = [res |-> "init", cb |-> 0, rejected |-> FALSE] /\ truth = <<>> /\ nops = 0
@@ -51,11 +52,11 @@ TNext ==
      CASE r.e = "new" ->
             /\ flavour' = r.flavour /\ cbPanics' = r.cbPanics /\ cbObs' = r.cbObs
             /\ specOf' = [n \in Names |-> SpecSet(r.specs[n])]
-            /\ reg' = {} /\ cache' = {} /\ series' = <<>> /\ handles' = <<>> /\ hmap' = <<>>
+            /\ reg' = {} /\ cache' = {} /\ series' = <<>> /\ handles' = <<>> /\ hmap' = <<>> /\ cbSum' = 0
             /\ out' = [res |-> "init", cb |-> 0, rejected |-> FALSE] /\ truth' = <<>> /\ nops' = 0
        [] r.e = "alloc" ->
             /\ Alloc(r.as, r.name, TM(r.tm))
-            /\ cbObs' = cbObs
+            /\ cbObs' = cbObs /\ cbSum' = cbSum + out'.cb
             (* harness handle number -> model handle number *)
             /\ hmap' = IF r.h # 0 /\ Len(handles') > Len(handles) THEN [x \in DOMAIN hmap \cup {r.h} |-> IF x = r.h THEN Len(handles') ELSE hmap[x]] ELSE hmap
             /\ IF r.res = "panic" /\ out'.res # "panic" THEN Fail("NeverPanicsWhenCallbackReturns")
@@ -64,16 +65,20 @@ TNext ==
                ELSE IF cbObs /\ r.cb # out'.cb THEN Fail("RejectionReported")
                ELSE TRUE
        [] r.e = "rep" ->
-            /\ cbObs' = cbObs /\ hmap' = hmap
+            /\ cbObs' = cbObs /\ hmap' = hmap /\ cbSum' = cbSum
             /\ IF r.h \in DOMAIN hmap
                THEN /\ Report(hmap[r.h], r.v)
                     /\ IF r.res # "ok" THEN Fail("UsableOrNoop:report-panicked") ELSE TRUE
                ELSE /\ UNCHANGED vars
                     /\ Fail("Drift:report-on-unknown-handle")
+       [] r.e = "cbtotal" ->
+            (* callbacks counted over a whole (concurrent) case: as many as the model's rejected registrations *)
+            /\ UNCHANGED <<vars, hmap, cbObs, cbSum>>
+            /\ IF r.n # cbSum THEN Fail("RejectionReported:callbacks-in-total") ELSE TRUE
        [] r.e = "gather" ->
-            /\ UNCHANGED <<vars, hmap, cbObs>>
+            /\ UNCHANGED <<vars, hmap, cbObs, cbSum>>
             /\ JudgeGather(r)
-       [] OTHER -> UNCHANGED <<vars, hmap, cbObs>>
+       [] OTHER -> UNCHANGED <<vars, hmap, cbObs, cbSum>>
   /\ l' = l + 1
-TraceSpec == TInit /\ [][TNext]_<<vars, l, hmap, cbObs>>
+TraceSpec == TInit /\ [][TNext]_<<vars, l, hmap, cbObs, cbSum>>
 =============================================================================
